@@ -846,10 +846,14 @@ def _table(ctx) -> None:
             continue
         for x in subterms(m.value):
             if x[0] in ("sub", "elem") and is_value(x[1]) if len(x) > 2 else False:
-                for K in ("list", "tuple", "Iterator"):
-                    if not all(ktruth(c, K) is not (not pol) for c, pol in flatten_conds(m.conds)):
-                        continue               # this store is not reached for a value of that kind
-                    kv = kval(x[1], K)
+                for K in ("list", "tuple", "Iterator", "deque"):
+                    NT[0] = 2                  # (stores inside the per-column loop: several target columns)
+                    try:
+                        if not all(ktruth(c, K) is not (not pol) for c, pol in flatten_conds(m.conds)):
+                            continue               # this store is not reached for a value of that kind
+                        kv = kval(x[1], K)
+                    finally:
+                        NT[0] = None
                     if kv == "list-shared" or (kv is not None and kv[0] == "raw"):
                         shared.append((K, m))
     snapped = snapped and not shared
@@ -858,8 +862,8 @@ def _table(ctx) -> None:
         ctx.ob("f.table-delegation", f, "key-value-snapshot", False, "", m_.node,
                message=f"Table.__setitem__: a value given as a {'one-shot iterator' if K_ == 'Iterator' else K_} of columns is written item by item "
                        f"without its vectors being copied first: t[:, ['a', 'b']] = "
-                       f"{'reversed([t.a, t.b])' if K_ == 'Iterator' else '[t.b, t.a]'} sets both columns to the old b (what is written first "
-                       f"changes what is read next)")
+                       f"{'reversed([t.a, t.b])' if K_ == 'Iterator' else ('deque([t.b, t.a])' if K_ == 'deque' else '[t.b, t.a]')} sets both "
+                       f"columns to the old b (what is written first changes what is read next)")
     else:
         ctx.ob("f.table-delegation", f, "key-value-snapshot", snap and snapped,
                "a Vector key / value (possibly a live column of this table) is copied before the first column is written", f.node,
